@@ -8,6 +8,7 @@ import (
 	"sort"
 
 	"github.com/taurusgroup/multi-party-sig/pkg/party"
+	"github.com/taurusgroup/multi-party-sig/protocols/cmp"
 	"github.com/taurusgroup/multi-party-sig/verif/fw"
 	"github.com/taurusgroup/multi-party-sig/verif/ref"
 	"github.com/taurusgroup/multi-party-sig/verif/scen"
@@ -96,6 +97,16 @@ func CheckMaterial(c *fw.Ctx, m *scen.Material, where string, expectY *ref.Pt, s
 	if Y.Inf {
 		bad("group-key-identity", "group key is the identity / not liftable")
 		return Y, false
+	}
+	// CMP configs do not store the group key: what a party REPORTS is Config.PublicPoint(); it must be
+	// the key its public-share table interpolates to (Y above is the reference interpolation)
+	for _, id := range m.IDs {
+		if cc, isCMP := m.Cfg[id].(*cmp.Config); isCMP {
+			if rep := scen.Pt(cc.PublicPoint()); !rep.Equal(Y) {
+				bad("reported-group-key-differs-from-table", "party %q reports group key %x (Config.PublicPoint) but its public shares interpolate to %x (n=%d t=%d)", id, rep.Compress(), Y.Compress(), len(m.IDs), m.T)
+				break
+			}
+		}
 	}
 	if expectY != nil && !expectY.Equal(Y) {
 		bad("group-key-changed", "group key %x differs from the expected %x", Y.Compress(), expectY.Compress())
